@@ -1251,6 +1251,7 @@ theorem step_sim {s : State} {s' : SState} (x : Sim s s') (op : Op) :
         have hl : m.exited = false := by rw [rel.exited]; exact hq.2
         rw [x.notes m hm r hr (hme.trans hre.symm) hl]
         exact ⟨x, Or.inr rfl⟩
+  | clock t => exact ⟨x, Or.inr rfl⟩
 
 theorem init_sim : Sim {} {} := by
   refine ⟨init_agree, List.nodup_nil, rfl, List.nodup_nil, ?_, ?_, ?_, init_inv, List.nodup_nil, ?_, ?_, ?_, ?_, ?_, ?_⟩
